@@ -210,6 +210,31 @@ func c12One(r *fw.Rec, ws *writerSpec) bool {
 		format = allFormats[rng.Intn(len(allFormats))]
 	}
 	hints, hdesc := c12Hints(rng)
+	if ws.Name == "CODE_128" && rng.Intn(3) == 0 {
+		// Code 128 specifics: digits / letters with FNC1..FNC4 escapes (U+00F1..U+00F4) at every
+		// kind of position (odd and even digit offsets, first, last), under each forced code set
+		n := 1 + rng.Intn(12)
+		rs := make([]rune, 0, n+3)
+		alpha := []string{"0123456789", "0123456789", "0123456789AB", "ab01"}[rng.Intn(4)]
+		for i := 0; i < n; i++ {
+			rs = append(rs, rune(alpha[rng.Intn(len(alpha))]))
+		}
+		for k := rng.Intn(3); k >= 0; k-- {
+			pos := rng.Intn(len(rs) + 1)
+			esc := rune(0xF1 + rng.Intn(4))
+			if rng.Intn(3) > 0 {
+				esc = 0xF1
+			}
+			rs = append(rs[:pos], append([]rune{esc}, rs[pos:]...)...)
+		}
+		content = string(rs)
+		if hints == nil {
+			hints = map[gozxing.EncodeHintType]interface{}{}
+		}
+		set := []string{"A", "B", "C", "C"}[rng.Intn(4)]
+		hints[gozxing.EncodeHintType_FORCE_CODE_SET] = set
+		hdesc += " FORCE_CODE_SET=" + set + " (code128 escape class)"
+	}
 	w, h := c12Dim(rng), c12Dim(rng)
 	if w == 20000 && h == 20000 && rng.Intn(4) != 0 {
 		h = 50
